@@ -3,9 +3,9 @@ import json, os
 import vlib
 
 QUICK = dict(Ops='{"fetch", "push", "merge"}', BranchSrc="{1, 2, 4, 6, 7}", BranchDst="{0, 1, 2, 4, 6}", TagSrc="{0, 2, 6}",
-             TagDst="{0, 2, 4}", Depths="{0, 1}", TagSpecs='{"none", "plain", "force"}', TwinDst="{0, 1, 6}")
+             TagDst="{0, 2, 4}", Depths="{0, 1}", TagSpecs='{"none", "plain", "force", "cross"}', TwinDst="{0, 1, 6}")
 THOROUGH = dict(Ops='{"fetch", "push", "merge"}', BranchSrc="{1, 2, 4, 6, 7}", BranchDst="{0, 1, 2, 3, 4, 6, 7}", TagSrc="{0, 2, 4, 6}",
-                TagDst="{0, 2, 4, 7}", Depths="{0, 1, 2}", TagSpecs='{"none", "plain", "force"}', TwinDst="{0, 1, 4, 6}")
+                TagDst="{0, 2, 4, 7}", Depths="{0, 1, 2}", TagSpecs='{"none", "plain", "force", "cross"}', TwinDst="{0, 1, 4, 6}")
 
 
 def generate(tier, scen, seed, sample=None):
